@@ -1839,7 +1839,13 @@ fn alias_collect(rep: &mut Report, p: APending, known_hung: bool) -> bool {
         };
         rep.eval();
         rep.distinct(("aliased", format!("{:?}", p.kind), p.backing, *pay, *code));
-        match p.rx.recv_timeout(left) {
+        let mut got = p.rx.recv_timeout(left);
+        if !known_hung && matches!(got, Err(mpsc::RecvTimeoutError::Timeout)) {
+            // confirmation wait: a starved machine must not turn into a verdict; a self-deadlock stays one forever
+            rep.tally("aliased_first_wait_expired");
+            got = p.rx.recv_timeout(std::time::Duration::from_secs(110).saturating_sub(p.spawned.elapsed()).max(std::time::Duration::from_secs(1))); // all helpers were spawned up front: 110 s from spawn in total
+        }
+        match got {
             Ok(m) => {
                 if rep.verbose {
                     eprintln!("case aliased:{} {} <{}> through {} input code {} -> {}", p.case, p.kind.describe(), pay, back, code, m.cat);
